@@ -693,3 +693,269 @@ def replay_refusal(w):
             return {"violated": True, "observed": f"ShareSet(shares).recover() returned {r.hex()} for the inconsistent / insufficient shares {hdr}"}
         last = f"returned {r.hex()} (consistent set)"
     return {"violated": False, "observed": last}
+
+
+# =============================================================================================== O5 Feistel
+
+def _o5_path(nb, lp, exps):
+    sh, S = mods()
+    x = SBytes.sym("x", nb)
+    pw = SBytes.sym("pw", lp) if lp else b""
+    ident = SI.var("id", 0, (1 << 15) - 1)
+    e = SI.var("e", exps[0], exps[-1]) if len(exps) > 1 else exps[0]
+
+    def wit(env):
+        return {"x": bytes_env(env, "x", nb).hex(), "pw": bytes_env(env, "pw", lp).hex(), "id": env["id"], "e": env.get("e", exps[0])}
+    a = len(shims.HASH_CALLS)
+    try:
+        enc = S.encrypt(x, ident, e, pw)
+    except Exception as ex:
+        check(False, f"encrypt raised {type(ex).__name__}", witness=wit)
+        return "error"
+    ncalls = len(shims.HASH_CALLS) - a
+    check(len(enc) == nb, "encrypt changes the length", witness=wit)
+    check(ncalls == 4, f"encrypt makes {ncalls} PBKDF2 calls (4 Feistel rounds expected)", witness=wit)
+    share = sh.Share(8 * nb, ident, e, 0, 1, 1, 0, 1, 0)
+    ss = S([share])
+    try:
+        dec = ss.decrypt(enc, pw)
+    except Exception as ex:
+        check(False, f"decrypt raised {type(ex).__name__}", witness=wit)
+        return "error"
+    check((len(dec) == nb) and (dec == x), "decrypt(encrypt(x)) != x", witness=wit, fresh=True, timeout_ms=120000)
+    # and the other way round (decryption is a bijection too): encrypt(decrypt(y)) == y
+    enc2 = S.encrypt(ss.decrypt(x, pw), ident, e, pw)
+    check((len(enc2) == nb) and (enc2 == x), "encrypt(decrypt(y)) != y", witness=wit, fresh=True, timeout_ms=120000)
+    return "ok"
+
+
+def ob_feistel(nb, lps, exps):
+    runs = [sym_run(lambda: _o5_path(nb, lp, exps), expect_classes=["ok"], timeout_ms=120000) for lp in lps]
+    m = merge_runs(runs)
+    m["sample"] = {"payload_bytes": nb, "passphrase_bytes": list(lps), "exponent": f"symbolic in {list(exps)}", "id": "symbolic 15 bits",
+                   "pbkdf2": "uninterpreted"}
+    return m
+
+
+def replay_feistel(w):
+    from buidl.shamir import ShareSet, Share
+    x, pw, ident, e = bytes.fromhex(w["x"]), bytes.fromhex(w["pw"]), w["id"], w["e"]
+    enc = ShareSet.encrypt(x, ident, e, pw)
+    ss = ShareSet([Share(8 * len(x), ident, e, 0, 1, 1, 0, 1, 0)])
+    dec = ss.decrypt(enc, pw)
+    enc2 = ShareSet.encrypt(ss.decrypt(x, pw), ident, e, pw)
+    bad = dec != x or enc2 != x or len(enc) != len(x)
+    return {"violated": bad, "observed": f"x={x.hex()} passphrase={pw.hex()} id={ident} e={e}: encrypt -> {enc.hex()}, decrypt(encrypt(x)) -> {dec.hex()}, "
+                                         f"encrypt(decrypt(x)) -> {enc2.hex()}"}
+
+
+# =============================================================================================== O4 share codec / RS1024
+
+GEN = (0xE0E040, 0x1C1C080, 0x3838100, 0x7070200, 0xE0E0009, 0x1C0C2412, 0x38086C24, 0x3090FC48, 0x21B1F890, 0x3F3F120)   # SLIP39
+
+
+def spec_rs_step(chk, v):
+    """one symbol of the SLIP39 checksum polynomial on a 30-bit state (ints or proxies)"""
+    b = chk >> 20
+    chk = ((chk & 0xFFFFF) << 10) ^ v
+    for i in range(10):
+        bit = (b >> i) & 1
+        if isinstance(bit, int):
+            chk = chk ^ (GEN[i] if bit else 0)
+        else:
+            chk = chk ^ s_ite(bit == 1, GEN[i], 0)
+    return chk
+
+
+def _pack3(t):
+    return (t[0] << 20) | (t[1] << 10) | t[2]
+
+
+class Handles:
+    """token <-> (symbolic) word index: 'w<j>' = the full word of handle j, 'p<j>' = its four-letter prefix (hash-consed on the index)"""
+
+    def __init__(self):
+        self.by_key, self.index, self.kind, self.n = {}, {}, {}, 0
+
+    def _h(self, idx):
+        key = ("n", idx.n.id) if isinstance(idx, SI) else ("c", int(idx))
+        j = self.by_key.get(key)
+        if j is None:
+            j = self.by_key[key] = self.n
+            self.n += 1
+            for pre, kind in (("w", "full"), ("p", "prefix")):
+                self.index[f"{pre}{j}"] = idx
+                self.kind[f"{pre}{j}"] = kind
+        return j
+
+    def token(self, idx, form="full"):
+        return ("w" if form == "full" else "p") + str(self._h(idx))
+
+
+class _Words:
+    def __init__(self, hs, size):
+        self.hs, self.size = hs, size
+
+    def __getitem__(self, k):
+        if k < 0:
+            k = k + self.size
+        if k < 0 or k >= self.size:
+            raise IndexError("list index out of range")
+        return self.hs.token(k)
+
+    def __contains__(self, tok):
+        return self.hs.kind.get(tok) == "full"
+
+    def __len__(self):
+        return self.size
+
+
+class _Lookup:
+    def __init__(self, hs):
+        self.hs = hs
+
+    def __getitem__(self, tok):
+        if tok not in self.hs.index:
+            raise KeyError(tok)
+        return self.hs.index[tok]
+
+    def __contains__(self, tok):
+        return tok in self.hs.index
+
+
+def install_handles(size=1024):
+    """a real WordList object (real methods) over handle tables in place of sbuidl.shamir.SLIP39"""
+    sh, S = mods()
+    mn = loader.load("mnemonic")
+    hs = Handles()
+    wl = object.__new__(mn.WordList)
+    wl.words = _Words(hs, size)
+    wl.lookup = _Lookup(hs)
+    sh.SLIP39 = wl
+    return hs
+
+
+def fold_polymod(values):
+    """rs1024_polymod(values), compositionally: Z = polymod(values[:-3] + [0,0,0]) is an uninterpreted 30-bit function of the
+    symbols values[:-3]; the last three symbols enter linearly: polymod(values) = Z ^ pack(values[-3:]) (lemmas O4-rs-step /
+    O4-rs-fold on the real function).  Lists without symbolic entries go to the real function."""
+    real = _STATE["real_polymod"]
+    values = list(values)
+    if len(values) <= 3 or all(isinstance(v, int) for v in values):
+        return real(values)
+    if not all((isinstance(v, int) and 0 <= v <= 1023) or (isinstance(v, SI) and v.lo >= 0 and v.hi <= 1023) for v in values):
+        return real(values)
+    pre, tail = values[:-3], values[-3:]
+    arg = 0
+    for v in pre:
+        arg = (arg << 10) | v
+    name = f"rszero_{len(pre)}"
+    if name not in core.UF_IMPL:
+        k = len(pre)
+        core.UF_IMPL[name] = lambda val, k=k: spec_rs1024_polymod([(val >> (10 * (k - 1 - i))) & 1023 for i in range(k)] + [0, 0, 0])
+    z = wrap(core.n_uf(name, 30, [lift(arg)], widths=(10 * len(pre),)))
+    return z ^ _pack3(tail)
+
+
+def use_polymod(kind):
+    sh, S = mods()
+    sh.rs1024_polymod = _STATE["real_polymod"] if kind == "real" else fold_polymod
+
+
+def _step(real, S_, v):
+    """state after one symbol v from the 30-bit state S_, through the real function (its first iteration maps (1, v0) to 1024 ^ v0)"""
+    return real([S_ ^ 1024, v])
+
+
+def _rs_step_path():
+    sh, S = mods()
+    real = _STATE["real_polymod"]
+    S1 = SI.var("S1", 0, (1 << 30) - 1)
+    S2 = SI.var("S2", 0, (1 << 30) - 1)
+    v1 = SI.var("v1", 0, 1023)
+    v2 = SI.var("v2", 0, 1023)
+    wit = lambda env: {"kind": "step", "S1": env["S1"], "S2": env["S2"], "v1": env["v1"], "v2": env["v2"]}  # noqa
+    check(real([]) == 1 and real([0]) == 1024, "initial state", witness=wit)
+    check(real([v1]) == (1024 ^ v1), "first symbol: state (1 << 10) ^ v", witness=wit, fresh=True)
+    a = _step(real, S1, v1)
+    check(a == spec_rs_step(S1, v1), "one step of rs1024_polymod differs from the SLIP39 generator polynomial step", witness=wit, fresh=True)
+    check(_step(real, S1 ^ S2, v1 ^ v2) == (a ^ _step(real, S2, v2)), "one step of rs1024_polymod is not XOR-linear in (state, symbol)", witness=wit,
+          fresh=True, timeout_ms=120000)
+    # the last three symbols enter linearly from any state (checksum creation / verification)
+    t = [v1, v2, SI.var("v3", 0, 1023)]
+    wit3 = lambda env: {"kind": "tail", "S1": env["S1"], "t": [env["v1"], env["v2"], env["v3"]]}  # noqa
+    check(real([S1 ^ 1024] + t) == (real([S1 ^ 1024, 0, 0, 0]) ^ _pack3(t)), "the last three symbols do not enter rs1024_polymod linearly", witness=wit3,
+          fresh=True, timeout_ms=120000)
+    return Out("ok", a)
+
+
+def ob_rs_step():
+    r = sym_run(_rs_step_path, expect_classes=["ok"], timeout_ms=120000,
+                gen_env=lambda rng: {"S1": rng.randrange(1 << 30), "S2": rng.randrange(1 << 30), "v1": rng.randrange(1024), "v2": rng.randrange(1024),
+                                     "v3": rng.randrange(1024)},
+                native=lambda env: loader.native("shamir").rs1024_polymod([env["S1"] ^ 1024, env["v1"]]), n_val=20)
+    r["sample"] = {"state": "symbolic 30 bits (two of them)", "symbols": "symbolic 10 bits"}
+    return r
+
+
+def _rs_fold_path(k):
+    """left fold through the first value and affinity for short fully symbolic lists"""
+    sh, S = mods()
+    real = _STATE["real_polymod"]
+    p = [SI.var(f"p[{i}]", 0, 1023) for i in range(k)]
+    e = [SI.var(f"e[{i}]", 0, 1023) for i in range(k)]
+    t = [SI.var(f"t[{i}]", 0, 1023) for i in range(3)]
+    wit = lambda env: {"kind": "fold", "p": [env[f"p[{i}]"] for i in range(k)], "e": [env[f"e[{i}]"] for i in range(k)],  # noqa
+                       "t": [env[f"t[{i}]"] for i in range(3)]}
+    whole = real(list(CS) + p + t)
+    st = real(list(CS) + p)
+    check(whole == real([st ^ 1024] + t), "rs1024_polymod(p + t) != rs1024_polymod([rs1024_polymod(p) ^ 1024] + t) (left fold)", witness=wit,
+          fresh=True, timeout_ms=120000)
+    # affinity: an error pattern e changes the result by the fold of e from the zero state, whatever the data
+    lin = real([1024] + e + [0, 0, 0])
+    moved = real(list(CS) + [a ^ b for a, b in zip(p, e)] + t)
+    check(moved == (whole ^ lin), "rs1024_polymod(data ^ e) != rs1024_polymod(data) ^ L(e) for a short list", witness=wit, fresh=True, timeout_ms=120000)
+    return Out("ok", whole)
+
+
+def ob_rs_fold(maxk):
+    nat = loader.native("shamir")
+    runs = []
+    for k in range(0, maxk + 1):
+        def gen(rng, k=k):
+            env = {f"p[{i}]": rng.randrange(1024) for i in range(k)}
+            env.update({f"e[{i}]": rng.randrange(1024) for i in range(k)})
+            env.update({f"t[{i}]": rng.randrange(1024) for i in range(3)})
+            return env
+        runs.append(sym_run(lambda: _rs_fold_path(k), expect_classes=["ok"], timeout_ms=120000, gen_env=gen,
+                            native=lambda env, k=k: nat.rs1024_polymod(list(CS) + [env[f"p[{i}]"] for i in range(k)] + [env[f"t[{i}]"] for i in range(3)]),
+                            n_val=6))
+    m = merge_runs(runs)
+    m["sample"] = {"prefix": f"0..{maxk} symbolic symbols after b'shamir'", "error pattern": "same length, symbolic", "tail": "3 symbolic symbols"}
+    return m
+
+
+def replay_rs(w):
+    from buidl.shamir import rs1024_polymod as real
+    k = w["kind"]
+    if k == "step":
+        S1, S2, v1, v2 = w["S1"], w["S2"], w["v1"], w["v2"]
+        a, b, c = real([S1 ^ 1024, v1]), real([S2 ^ 1024, v2]), real([S1 ^ S2 ^ 1024, v1 ^ v2])
+        bad = real([]) != 1 or real([v1]) != 1024 ^ v1 or a != spec_rs_step(S1, v1) or c != a ^ b
+        return {"violated": bad, "observed": f"step({S1:#x}, {v1}) = {a:#x}, SLIP39 step = {spec_rs_step(S1, v1):#x}; step(S1^S2, v1^v2) = {c:#x}, "
+                                             f"step(S1,v1)^step(S2,v2) = {a ^ b:#x}"}
+    if k == "tail":
+        S1, t = w["S1"], w["t"]
+        a, z = real([S1 ^ 1024] + t), real([S1 ^ 1024, 0, 0, 0])
+        return {"violated": a != z ^ _pack3(t), "observed": f"state {S1:#x} tail {t}: {a:#x} vs {z ^ _pack3(t):#x}"}
+    if k == "fold":
+        p, e, t = w["p"], w["e"], w["t"]
+        whole = real(list(CS) + p + t)
+        folded = real([real(list(CS) + p) ^ 1024] + t)
+        lin = real([1024] + e + [0, 0, 0])
+        moved = real(list(CS) + [a ^ b for a, b in zip(p, e)] + t)
+        ref = spec_rs1024_polymod(list(CS) + p + t)
+        bad = whole != folded or moved != whole ^ lin or whole != ref
+        return {"violated": bad, "observed": f"polymod(shamir+{p}+{t}) = {whole:#x} (reference {ref:#x}), folded {folded:#x}; with error {e}: {moved:#x} vs "
+                                             f"{whole ^ lin:#x}"}
+    raise KeyError(k)
